@@ -272,6 +272,36 @@ def rule_C(run, prog):
                 run.obligation(rid, "%s.%s" % (cname, mname), ok, key="temperature-registered",
                                message="component builder must register its temperature (consistency check)",
                                loc=f.loc())
+    # builders are stateless apart from the designated accumulators: an attribute of self that one
+    # builder call writes and a builder call reads carries a per-component option over to the
+    # components built after it
+    ACC = {"data", "_data", "lamb", "temperature", "cutoff_time", "lim_omega", "axis", "params",
+           "_has_imag", "_is_empty", "_splines_initialized"}
+    for cls_q, cname in ((CF + "CorrelationFunction", "CorrelationFunction"), (SD + "SpectralDensity", "SpectralDensity")):
+        cls = prog.cls(cls_q)
+        written, read = {}, {}
+        for mname, f in cls.methods.items():
+            if not mname.startswith("_make_") and mname != "_matsubara":
+                continue
+            for n in walk_no_nested(f.node):
+                if isinstance(n, ast.Attribute) and isinstance(n.value, ast.Name) and n.value.id == "self":
+                    if isinstance(n.ctx, ast.Store):
+                        written.setdefault(n.attr, []).append(mname)
+                    elif isinstance(n.ctx, ast.Load):
+                        read.setdefault(n.attr, []).append(mname)
+                if isinstance(n, ast.AugAssign) and isinstance(n.target, ast.Attribute) and \
+                        isinstance(n.target.value, ast.Name) and n.target.value.id == "self":
+                    written.setdefault(n.target.attr, []).append(mname)
+        carried = sorted(a for a in written if a in read and a not in ACC and not callable(None))
+        # method names are not state
+        carried = [a for a in carried if prog.find_method(cls, a) is None]
+        run.obligation(rid, cname + " component builders", not carried, key="stateless-builders",
+                       message="component builders carry state between components through self.%s (written in %s, "
+                               "read in %s): an option of one component leaks into the components built after it, "
+                               "so a rebuilt composite is not the sum of its components"
+                       % (carried, {a: sorted(set(written[a])) for a in carried}, {a: sorted(set(read[a])) for a in carried}),
+                       loc=cls.module.relpath, sample={"class": cname, "accumulators": sorted(ACC & set(written)),
+                                                       "carried": carried})
     f = prog.func(CF + "CorrelationFunction._set_temperature_and_cutoff_time")
     ok = any(isinstance(n, ast.If) and norm(n.test) == "self.temperature != temperature"
              and any(isinstance(x, ast.Raise) for x in n.body) for n in ast.walk(f.node))
